@@ -98,6 +98,14 @@ def gen(rng, tier):
         consumer = [['recv', rng.choice([None, None, 2.5])]
                     for _ in range(n + 1)] + consumer[:2]
         cfg['welcome'] = False
+    if cfg['fault'] and rng.random() < 0.25:
+        # aimed: a receive() / emit() that becomes runnable the moment the
+        # client notices the loss, with the server greeting the reconnected
+        # client right behind the CONNECT reply
+        cfg['welcome'] = True
+        consumer[0:0] = [['until_down', 5.0],
+                         rng.choice([['recv', None], ['recv', 2.5],
+                                     ['emit'], ['emit']])]
     if cfg['early']:
         consumer[0:0] = [rng.choice([['recv', None], ['recv', None],
                                      ['emit'], ['call']])]
